@@ -166,20 +166,6 @@ func (b *raftBackend) Set(args setArgs) (bool, error) {
 	if len(args.Key) == 0 {
 		return false, fmt.Errorf("empty key")
 	}
-	if args.NX || args.XX {
-		// Mirror Redis semantics: the existence check must observe the latest
-		// committed value before we attempt the write.
-		existing, err := b.Get(args.Key)
-		if err != nil {
-			return false, err
-		}
-		if args.NX && existing.Found {
-			return false, nil
-		}
-		if args.XX && !existing.Found {
-			return false, nil
-		}
-	}
 
 	valueKey := append([]byte(nil), args.Key...)
 	valueCopy := append([]byte(nil), args.Value...)
@@ -206,6 +192,32 @@ func (b *raftBackend) Set(args setArgs) (bool, error) {
 		})
 	}
 
+	if args.NX || args.XX {
+		// The existence check and the write are one transaction: the key is read at the
+		// version the write is prewritten with, so a commit in between is a write conflict
+		// and the whole command runs again.
+		applied := false
+		err := b.retryWithConflictResolution(func() error {
+			start, err := b.reserveTimestamp(2)
+			if err != nil {
+				return err
+			}
+			existing, err := b.getAtVersion(args.Key, start)
+			if err != nil {
+				return err
+			}
+			if (args.NX && existing.Found) || (args.XX && !existing.Found) {
+				applied = false
+				return nil
+			}
+			applied = true
+			return b.mutateAt(start, valueKey, mutations...)
+		})
+		if err != nil {
+			return false, err
+		}
+		return applied, nil
+	}
 	if err := b.mutate(valueKey, mutations...); err != nil {
 		return false, err
 	}
@@ -327,33 +339,50 @@ func (b *raftBackend) Exists(keys [][]byte) (int64, error) {
 }
 
 func (b *raftBackend) IncrBy(key []byte, delta int64) (int64, error) {
-	version, err := b.reserveTimestamp(1)
-	if err != nil {
-		return 0, err
-	}
-	val, err := b.getAtVersion(key, version)
-	if err != nil {
-		return 0, err
-	}
-	var current int64
-	if val != nil && val.Found && len(val.Value) > 0 {
-		current, err = strconv.ParseInt(string(val.Value), 10, 64)
+	var result int64
+	// The read and the write are one transaction: the counter is read at the version the new
+	// value is prewritten with, so an increment committed in between is a write conflict and
+	// the whole command runs again on the new value.
+	err := b.retryWithConflictResolution(func() error {
+		start, err := b.reserveTimestamp(2)
 		if err != nil {
-			return 0, errNotInteger
+			return err
 		}
-	}
-	if delta > 0 && current > math.MaxInt64-delta {
-		return 0, errOverflow
-	}
-	if delta < 0 && current < math.MinInt64-delta {
-		return 0, errOverflow
-	}
-	result := current + delta
-	if _, err := b.Set(setArgs{
-		Key:      key,
-		Value:    []byte(strconv.FormatInt(result, 10)),
-		ExpireAt: val.GetExpiresAt(),
-	}); err != nil {
+		val, err := b.getAtVersion(key, start)
+		if err != nil {
+			return err
+		}
+		var current int64
+		if val != nil && val.Found && len(val.Value) > 0 {
+			current, err = strconv.ParseInt(string(val.Value), 10, 64)
+			if err != nil {
+				return errNotInteger
+			}
+		}
+		if delta > 0 && current > math.MaxInt64-delta {
+			return errOverflow
+		}
+		if delta < 0 && current < math.MinInt64-delta {
+			return errOverflow
+		}
+		result = current + delta
+		valueKey := append([]byte(nil), key...)
+		mutations := []*pb.Mutation{{
+			Op:    pb.Mutation_Put,
+			Key:   valueKey,
+			Value: []byte(strconv.FormatInt(result, 10)),
+		}}
+		metaKey := ttlMetaKey(key)
+		if expireAt := val.GetExpiresAt(); expireAt > 0 {
+			buf := make([]byte, 8)
+			binary.BigEndian.PutUint64(buf, expireAt)
+			mutations = append(mutations, &pb.Mutation{Op: pb.Mutation_Put, Key: metaKey, Value: buf})
+		} else {
+			mutations = append(mutations, &pb.Mutation{Op: pb.Mutation_Delete, Key: metaKey})
+		}
+		return b.mutateAt(start, valueKey, mutations...)
+	})
+	if err != nil {
 		return 0, err
 	}
 	return result, nil
@@ -495,17 +524,22 @@ func (b *raftBackend) mutate(primary []byte, mutations ...*pb.Mutation) error {
 		if err != nil {
 			return err
 		}
-		commit := start + 1
-		ctx, cancel := b.context()
-		defer cancel()
-		return b.client.Mutate(ctx,
-			append([]byte(nil), primary...),
-			mutations,
-			start,
-			commit,
-			defaultLockTTL,
-		)
+		return b.mutateAt(start, primary, mutations...)
 	})
+}
+
+// mutateAt runs the two-phase commit with the given start version (commit version start+1,
+// both reserved by the caller in one call): a command that read at start writes at start.
+func (b *raftBackend) mutateAt(start uint64, primary []byte, mutations ...*pb.Mutation) error {
+	ctx, cancel := b.context()
+	defer cancel()
+	return b.client.Mutate(ctx,
+		append([]byte(nil), primary...),
+		mutations,
+		start,
+		start+1,
+		defaultLockTTL,
+	)
 }
 
 func (b *raftBackend) resolveKeyConflicts(conflicts *client.KeyConflictError) bool {
